@@ -13,6 +13,7 @@ struct Sched {
 };
 struct Cb { void operator()(int&) noexcept; };
 using FC = ::babylon::FutureContext<int, Sched>;
+void force2(::babylon::Promise<int, Sched>& p) { p.set_value(7); }
 bool force(FC& c, Cb& cb) {
   c.set_value(1);
   c.on_finish(cb);
